@@ -1,7 +1,8 @@
 (* C04R driver: runs the extracted statement-level model of read_oas (coq/OasisRead.v) on the byte stream of each
    case and prints `id \t M \t <result>`: the canonical dump of the loaded library (same text as dump_lib of
    harness/c04r.cpp) or an outcome word: eof overflow invalid unsupported cblock crash hang.
-   With S lines: the strict specification decoder of OasisSpec.v through `view` (only when it accepts the stream).
+   With S lines: the covered strict decoder (cov_oas_decode, a restriction of spec_oas_decode) through `view`, only
+   when it accepts the stream.
    payload: "<tag words ...> x<hex bytes>"; the byte string is the last word. *)
 open C04r
 open Conv
@@ -160,7 +161,11 @@ let rep_text (r : rrep) : string =
        | None -> "rect " ^ hex_of_n cols ^ " " ^ hex_of_n rows ^ " " ^ hex_of_n sx ^ " " ^ hex_of_n sy)
   | RR_regular (cols, rows, (v1x, v1y), (v2x, v2y)) ->
       (match lattice cols rows (fun i j -> (chk (i * iz v1x + j * iz v2x), chk (i * iz v1y + j * iz v2y))) with
-       | Some o -> show o
+       | Some o ->
+           let t = show o in
+           (* the two vectors as well: v2 of a one-row lattice does not show in the offsets *)
+           if t = "-" then t
+           else t ^ " R " ^ hex_i (iz v1x) ^ " " ^ hex_i (iz v1y) ^ " " ^ hex_i (iz v2x) ^ " " ^ hex_i (iz v2y)
        | None -> "regular " ^ hex_of_n cols ^ " " ^ hex_of_n rows ^ " " ^ hex_of_z v1x ^ " " ^ hex_of_z v1y ^ " " ^
                  hex_of_z v2x ^ " " ^ hex_of_z v2y)
   | RR_explicit offs -> show ((0, 0) :: List.map ipt offs)
@@ -241,8 +246,9 @@ let () =
       let w = if String.length w > 0 && w.[0] = 'x' then String.sub w 1 (String.length w - 1) else w in
       let bs = bytes_of_hex w in
       out id "M" (show_outcome (read_oas_model bs));
-      (* the strict decoder as an independent oracle: whenever it accepts, the reader must load view(L) *)
-      (match spec_oas_decode bs with
+      (* the strict decoder as an independent oracle: whenever it accepts a covered stream (cov_oas_decode, the part of
+         spec_oas_decode for which oas_reader_accepts_spec_partial is proved), the reader must load view(L) *)
+      (match cov_oas_decode bs with
        | Some l -> out id "S" (show_outcome (Ok (view l)))
        | None -> ())
     end)
